@@ -10,6 +10,7 @@ CONSTANTS
   SWSets <- SW_b
   FixGC = TRUE
   FixSnapshot = TRUE
+  FixLost = TRUE
   MaxStopFails = 1
   FixStopped = TRUE
 VIEW view
